@@ -40,7 +40,7 @@ fn fold_trigger(g: &mut Gen) -> E {
     E::Cmp(Cmp::Eq, bx(E::Arith(Op::Add, bx(E::Int((1 << 53) + 1)), bx(E::Int(1)))), bx(E::Int((1 << 53) + 2)))
 }
 
-/// findings 6/11: `N of <set>` whose N is 0 (constant or at run time)
+/// regression for findings 6/11 (repaired by 2b4649c7, bf5119e4): `N of <set>` whose N is 0 (constant or at run time)
 fn of_zero_trigger(g: &mut Gen) -> E {
     let n = g.npats;
     let (s, syn) = if g.rng.chance(1, 2) { ((0..n).collect::<Vec<_>>(), SetSyn::Them) } else {
@@ -56,8 +56,8 @@ fn of_zero_trigger(g: &mut Gen) -> E {
     E::Of(Q::Expr(bx(q)), s, syn, A::None)
 }
 
-/// the call to search_for_patterns is emitted once per and/or operand list, at the first
-/// pattern operation in emission order; here that site is skipped at run time (an undefined
+/// regression (repaired by e5009a16): the call to search_for_patterns used to be emitted once per
+/// and/or operand list, at the first pattern operation; here that site is skipped at run time (an undefined
 /// value or an empty range comes first) and a later pattern operation reads no matches
 fn lazy_trigger(g: &mut Gen) -> E {
     let n = g.npats as u64;
@@ -142,7 +142,7 @@ fn gen_case(rng: &mut Rng, stream: Stream, depth: u32) -> Case {
         let pats: Vec<Vec<u8>> = (0..npats).map(|_| if stream == Stream::OfZero { pool_next += 1; pool[pool_next - 1].clone() } else { rng.pick(&pool).clone() }).collect();
         let refs: Vec<usize> = (0..i).filter(|j| rules[*j].ns == ns && (!global || rules[*j].global)).collect();
         let mut g = Gen { rng, npats, fsize: data.len() as i64, scope: vec![], for_of: 0, refs, next_var: 0, slots: 0,
-                          max_slots: 58, budget: 30 + 10 * depth as i32, stream: if special { stream } else { Stream::Main }, zero_of: special && stream == Stream::OfZero, iters: 1 };
+                          max_slots: 58, budget: 30 + 10 * depth as i32, stream: if special { stream } else { Stream::Main }, zero_of: true, iters: 1 };
         let d = if big { depth.min(2) } else { depth };
         let cond = if !special { g.gen_bool(d) } else {
             let t = match stream {
